@@ -9,6 +9,7 @@ import (
 
 	"verifharness/internal/core"
 	"verifharness/internal/ref/par1rw"
+	"verifharness/internal/scen"
 )
 
 func (c *c10) Cases(tier string, seed int64) []core.Case {
@@ -21,6 +22,11 @@ func (c *c10) Cases(tier string, seed int64) []core.Case {
 	// reader direction: all placements of non-saved entries among up to 6 entries
 	for total := 2; total <= 6; total++ {
 		cs = append(cs, core.MkCase(fmt.Sprintf("reader-placements-%d", total), p1Params{r.Int63(), fmt.Sprintf("reader-placements:%d", total)}))
+	}
+	// entry counts around the 256-shard limit of GF(2^8), with and without
+	// non-saved entries
+	for _, n := range []int{250, 255, 256, 257, 300} {
+		cs = append(cs, core.MkCase(fmt.Sprintf("reader-many-entries-%d", n), p1Params{r.Int63(), fmt.Sprintf("reader-many:%d", n)}))
 	}
 	m := map[string]int{"quick": 60, "thorough": 4000}[tier]
 	for i := 0; i < m; i++ {
@@ -50,6 +56,10 @@ func (c *c10) Run(cs core.Case) core.Result {
 				break
 			}
 		}
+	case len(p.Kind) > 12 && p.Kind[:12] == "reader-many:":
+		var total int
+		fmt.Sscanf(p.Kind, "reader-many:%d", &total)
+		c.runReaderMany(r, rng, total)
 	default:
 		total := 1 + rng.Intn(10)
 		mask := 1 + rng.Intn(1<<uint(total)-1)
@@ -224,4 +234,46 @@ func (c *c10) runReader(r *core.R, rng *rand.Rand, total, savedMask int, allDama
 	r.Key("reader|n=%d|mask=%b|v=%d", total, savedMask, nv)
 	r.Count("reference_written_sets", 1)
 	r.Sample(map[string]interface{}{"direction": "reader", "entries": total, "saved_mask": fmt.Sprintf("%b", savedMask), "volumes": nv, "comment_bytes": len(comment), "version_field": fmt.Sprintf("%#x", version)})
+}
+
+// runReaderMany: a reference-written index with `total` entries of which
+// at most 250 are saved (so that parity volumes fit the 256-shard limit).
+func (c *c10) runReaderMany(r *core.R, rng *rand.Rand, total int) {
+	var files []scen.File
+	var in []par1rw.InFile
+	var savedIdx []int
+	nSaved := 0
+	for i := 0; i < total; i++ {
+		f := scen.File{Name: fmt.Sprintf("m%03d.bin", i), Data: scen.GenData(rng, "random", 1+rng.Intn(40), 16)}
+		files = append(files, f)
+		sv := nSaved < 250 && (total <= 250 || rng.Intn(total) < 250)
+		if i >= total-3 && nSaved < 3 {
+			sv = true
+		}
+		if sv {
+			nSaved++
+			savedIdx = append(savedIdx, i)
+		}
+		in = append(in, par1rw.InFile{Name: f.Name, Data: f.Data, Saved: sv})
+	}
+	nv := 2
+	e, err := newP1Env(files, nv, false)
+	if e != nil {
+		defer e.close()
+	}
+	if err != nil {
+		r.Inconclusive("env: %v", err)
+		return
+	}
+	os.WriteFile(e.idx, par1rw.Build(in, 0, []byte("many"), 0x00010000), 0644)
+	vols := map[int][]byte{}
+	for v := 1; v <= nv; v++ {
+		vols[v] = par1rw.Build(in, v, par1rw.Parity(in, v), 0x00010000)
+	}
+	p1Judge(r, e, vols, p1Damage{bad: map[int]string{}, lostVols: map[int]bool{}}, rng, savedIdx, true)
+	p1Judge(r, e, vols, p1Damage{bad: map[int]string{savedIdx[0]: "delete"}, lostVols: map[int]bool{}}, rng, savedIdx, false)
+	p1Judge(r, e, vols, p1Damage{bad: map[int]string{savedIdx[len(savedIdx)-1]: "flip", savedIdx[len(savedIdx)/2]: "delete"}, lostVols: map[int]bool{}}, rng, savedIdx, true)
+	r.Key("reader-many|n=%d|saved=%d", total, nSaved)
+	r.Count("reference_written_sets", 1)
+	r.Sample(map[string]interface{}{"direction": "reader", "entries": total, "saved": nSaved, "volumes": nv})
 }
